@@ -7,8 +7,8 @@ import (
 	"go/token"
 	"go/types"
 	"io"
+	"path/filepath"
 	"reflect"
-	"slices"
 	"strings"
 
 	"honnef.co/go/tools/analysis/facts/directives"
@@ -594,10 +594,11 @@ func (g *graph) entry() {
 		if dir.Command != "ignore" && dir.Command != "file-ignore" {
 			continue
 		}
-		if len(dir.Arguments) == 0 {
+		if len(dir.Arguments) < 2 {
+			// Directives without a reason are malformed. They get reported as errors and must not ignore anything.
 			continue
 		}
-		if slices.Contains(strings.Split(dir.Arguments[0], ","), "U1000") {
+		if directiveMatchesU1000(dir.Arguments[0]) {
 			pos := g.fset.PositionFor(dir.Node.Pos(), false)
 			var key ignoredKey
 			switch dir.Command {
@@ -662,6 +663,17 @@ func (g *graph) entry() {
 			}
 		}
 	}
+}
+
+// directiveMatchesU1000 reports whether the comma-separated list of checks of a linter directive matches U1000.
+// Like for all other checks, names are globs and are matched case-insensitively.
+func directiveMatchesU1000(checks string) bool {
+	for c := range strings.SplitSeq(checks, ",") {
+		if m, _ := filepath.Match(strings.ToLower(c), "u1000"); m {
+			return true
+		}
+	}
+	return false
 }
 
 func isOfType[T any](x any) bool {
